@@ -387,7 +387,7 @@ func runC08Values(c C08Case) (st Stats, err error) {
 		if !isCond && sp.IsInit() {
 			l = sp.Len()
 		}
-		ctx := &synthCtx{Len: l, Variant: call.Variant}
+		ctx := &synthCtx{Len: l, Variant: call.Variant, ForceAny: call.Arg}
 		args, desc := synthArgs(m.Type, true, ctx)
 		var recv any = sp
 		if isCond {
@@ -402,7 +402,7 @@ func runC08Values(c C08Case) (st Stats, err error) {
 		}
 		// keep the twin in step for element-adding calls so that IsEqual compares like with like
 		if !isCond {
-			targs, _ := synthArgs(m.Type, true, &synthCtx{Len: l, Variant: call.Variant})
+			targs, _ := synthArgs(m.Type, true, &synthCtx{Len: l, Variant: call.Variant, ForceAny: call.Arg})
 			guard(func() { callMethod(tw, m, targs) })
 		}
 		// follow-up queries on the receiver
@@ -446,7 +446,7 @@ func runC08Values(c C08Case) (st Stats, err error) {
 	st.NonTrivial = len(c.Calls) > 0
 	sig := "values|" + c.Recv + c.Kind
 	for _, call := range c.Calls {
-		sig += fmt.Sprintf("|%s#%d", call.Method, call.Variant)
+		sig += fmt.Sprintf("|%s#%d%s", call.Method, call.Variant, call.Arg)
 	}
 	st.Sig = sig
 	return st, nil
@@ -503,8 +503,12 @@ func enumC08(tier Tier, yield func(C08Case)) {
 			if !anyParamMethod(m) {
 				continue
 			}
-			for v := 0; v < 3*len(awkwardCatalogue); v++ {
-				yield(C08Case{Mode: "values", Recv: recv, Kind: stackKinds[v%5], Calls: []C17Call{{m.Name, v}}})
+			for v := 0; v < 2*len(awkwardCatalogue); v++ {
+				yield(C08Case{Mode: "values", Recv: recv, Kind: stackKinds[v%5], Calls: []C17Call{{Method: m.Name, Variant: v}}})
+			}
+			// ... and every catalogue entry by name (exact coverage, and a replay that names its argument)
+			for i, a := range awkwardCatalogue {
+				yield(C08Case{Mode: "values", Recv: recv, Kind: stackKinds[i%5], Calls: []C17Call{{Method: m.Name, Variant: 1 + i%2, Arg: a.Name}}})
 			}
 		}
 	}
